@@ -28,12 +28,19 @@ def drive(rec):
     t = {"n": rec["n"], "gram": rec["gram"], "asym": rec["asym"], "ops": [], "decimals": int(rec.get("decimals") or 0),
          "switched": bool(rec.get("via_switch")), "pre": rec.get("pre", {}), "choice": rec["choice"],
          "applied": {"exc": "", "off": False, "codes": [], "raw": []},
-         "uc": {"exc": "", "off": False, "rows": [], "cc": []},
+         "uc": {"exc": "", "off": False, "rows": [], "cc": [], "again": "same"},
          "slab": {"exc": "", "off": False, "rows": [], "lo": rec["slab"][0], "hi": rec["slab"][1], "n_uc": 0, "n_cells": 0},
          "meta": {"recipe": rec, "source": rec.get("src", "random"),
                   "impl_call": "Crystal(UnitCell, SpaceGroup(%d,%r), AsymmetricUnit).unit_cell_atoms(); slab(%s)" % (
                       rec["number"], rec["choice"], rec["slab"])}}
-    cr = xtal.build_crystal(rec)
+    try:
+        cr = xtal.build_crystal(rec)
+    except Exception as e:
+        if not rec.get("via_switch"):
+            raise                                  # constructing a plain crystal from a recipe cannot fail: harness error
+        t["uc"]["exc"] = "switch:" + type(e).__name__
+        t["table_ops"] = rec["table_ops"]
+        return t
     sg = cr.space_group
     # coordinates given to d <= 5 decimals (0.333, 0.6667) sit within 10^-d of their grid point, and so do their images
     dec = int(rec.get("decimals") or 0)
@@ -75,12 +82,27 @@ def drive(rec):
         t["applied"]["exc"] = "not-called"
     rows, cc, off = xtal.project_rows(uc, n, rec["gram"] if tol == 1e-6 else None, rec["u"], tol=tol)
     t["uc"].update(rows=rows, cc=cc, off=bool(off))
+    snapshot = {k: np.array(v, copy=True) for k, v in uc.items()}
     try:
         sl = cr.slab(bounds=(tuple(rec["slab"][0]), tuple(rec["slab"][1])))
         srows, _, soff = xtal.project_rows(sl, n, None, rec["u"], with_cell=True, tol=tol)
         t["slab"].update(rows=srows, off=bool(soff), n_uc=int(sl["n_uc"]), n_cells=int(sl["n_cells"]))
     except Exception as e:
         t["slab"]["exc"] = type(e).__name__
+    # the same question asked again after the crystal has been exported and queried must get the same answer
+    for use in (lambda: cr.to_poscar_string(), lambda: cr.to_cif_string(), lambda: cr.to_shelx_string(), lambda: cr.density,
+                lambda: cr.atoms_in_radius(3.0), lambda: cr.asymmetric_unit.formula):
+        try:
+            use()
+        except Exception:
+            pass                                   # exports and other queries are judged elsewhere (C10, C03)
+    try:
+        uc2 = cr.unit_cell_atoms()
+        same = set(uc2.keys()) == set(snapshot.keys()) and all(
+            np.asarray(uc2[k]).shape == snapshot[k].shape and np.array_equal(np.asarray(uc2[k]), snapshot[k]) for k in snapshot)
+        t["uc"]["again"] = "same" if same else "differs"
+    except Exception as e:
+        t["uc"]["again"] = "exc:" + type(e).__name__
     mult = len(t["ops"]) * len(rec["asym"]) != len(rows)
     t["meta"]["nontrivial"] = bool(len(t["ops"]) > 1 and mult)
     return t
